@@ -640,6 +640,85 @@ theorem calculateMaxLevels_spec' (w h : Int) (hw : w ≤ 2 ^ 62) (hh : h ≤ 2 ^
         have e : (2 : Int) ^ (6 - 1) = 32 := by decide
         omega
 
+/-! ## Kmax sufficiency: gain tables and 5/3 lifting bounds -/
+
+/-- the exponent table is the ceil-log2 of the gain table: 2^(X-1) < G ≤ 2^X (G = 1 ↦ X = 0) -/
+theorem biboLog2_is_ceil_log2_gain : ∀ nl : Fin 7, ∀ res : Fin 7, ∀ band : Fin 4, res.val ≤ nl.val →
+    bandGain nl res band ≤ 2 ^ biboLog2 nl res band * 10 ^ 8 ∧
+    (0 < biboLog2 nl res band → 2 ^ (biboLog2 nl res band - 1) * 10 ^ 8 < bandGain nl res band) := by decide
+
+theorem gain_strict : ∀ nl : Fin 7, ∀ res : Fin 7, ∀ band : Fin 4, 1 ≤ nl.val → res.val ≤ nl.val →
+    ¬ (band.val = 3 ∧ res.val = nl.val) →
+    bandGain nl res band < 2 ^ biboLog2 nl res band * 10 ^ 8 := by decide
+
+theorem lt_of_scaled (a g k m : Nat) (hm : 0 < m) (hg : g < k * 10 ^ 8) (h : a * 10 ^ 8 ≤ g * m) : a < k * m := by
+  apply Nat.lt_of_not_ge
+  intro hge
+  have h1 : k * m * 10 ^ 8 ≤ a * 10 ^ 8 := Nat.mul_le_mul_right _ hge
+  have h2 : g * m < k * 10 ^ 8 * m := Nat.mul_lt_mul_of_pos_right hg hm
+  have h3 : k * 10 ^ 8 * m = k * m * 10 ^ 8 := by
+    rw [Nat.mul_assoc, Nat.mul_comm (10 ^ 8) m, ← Nat.mul_assoc]
+  omega
+
+theorem kmax_toNat (nl bd : Nat) (rct : Bool) (res band : Nat) (hnl : 1 ≤ nl) (hbd : 1 ≤ bd) :
+    (encBandNumbps nl bd rct res band).toNat = (bd + rct.toNat - 1) + biboLog2 nl res band := by
+  have : nl ≠ 0 := by omega
+  unfold encBandNumbps htExpn htGuardBits
+  cases rct <;> simp [this] <;> omega
+
+theorem kmax_sufficient_of_gain' (nl bd : Nat) (rct : Bool) (res band : Nat) (c : Int)
+    (hnl : 1 ≤ nl ∧ nl ≤ 6) (hbd : 1 ≤ bd) (hres : res ≤ nl) (hband : band ≤ 3)
+    (hnotHH1 : ¬ (band = 3 ∧ res = nl))
+    (hgain : c.natAbs * 10 ^ 8 ≤ bandGain nl res band * 2 ^ (bd + rct.toNat - 1)) :
+    c.natAbs < 2 ^ (encBandNumbps nl bd rct res band).toNat := by
+  rw [kmax_toNat nl bd rct res band hnl.1 hbd, Nat.pow_add, Nat.mul_comm]
+  have hs := gain_strict ⟨nl, by omega⟩ ⟨res, by omega⟩ ⟨band, by omega⟩ hnl.1 hres hnotHH1
+  exact lt_of_scaled _ _ _ _ (Nat.two_pow_pos _) hs hgain
+
+/-- first-pass intervals for level-shifted samples in [-M, M-1] -/
+def inSamples (M x : Int) : Prop := -M ≤ x ∧ x ≤ M - 1
+def inLow1 (M x : Int) : Prop := (-(6 * M + 1)) / 4 ≤ x ∧ x ≤ (6 * M - 1) / 4
+def inHigh1 (M x : Int) : Prop := -(2 * M - 1) ≤ x ∧ x ≤ 2 * M - 1
+
+theorem pass1_low (M a b c d e : Int) (ha : inSamples M a) (hb : inSamples M b) (hc : inSamples M c)
+    (hd : inSamples M d) (he : inSamples M e) :
+    inLow1 M (lift53Low (lift53High a b c) c (lift53High c d e)) := by
+  unfold inSamples at *; unfold inLow1 lift53Low lift53High; omega
+
+theorem pass1_high (M a b c : Int) (ha : inSamples M a) (hb : inSamples M b) (hc : inSamples M c) :
+    inHigh1 M (lift53High a b c) := by
+  unfold inSamples at *; unfold inHigh1 lift53High; omega
+
+theorem pass2_LL (M a b c d e : Int) (hM : 1 ≤ M) (ha : inLow1 M a) (hb : inLow1 M b) (hc : inLow1 M c)
+    (hd : inLow1 M d) (he : inLow1 M e) :
+    (-(4 * M) < lift53Low (lift53High a b c) c (lift53High c d e)) ∧
+      lift53Low (lift53High a b c) c (lift53High c d e) < 4 * M := by
+  unfold inLow1 at *; unfold lift53Low lift53High; omega
+
+theorem pass2_lowOfHigh (M a b c d e : Int) (hM : 1 ≤ M) (ha : inHigh1 M a) (hb : inHigh1 M b) (hc : inHigh1 M c)
+    (hd : inHigh1 M d) (he : inHigh1 M e) :
+    (-(4 * M) < lift53Low (lift53High a b c) c (lift53High c d e)) ∧
+      lift53Low (lift53High a b c) c (lift53High c d e) < 4 * M := by
+  unfold inHigh1 at *; unfold lift53Low lift53High; omega
+
+theorem pass2_highOfLow (M a b c : Int) (hM : 1 ≤ M) (ha : inLow1 M a) (hb : inLow1 M b) (hc : inLow1 M c) :
+    (-(4 * M) < lift53High a b c) ∧ lift53High a b c < 4 * M := by
+  unfold inLow1 at *; unfold lift53High; omega
+
+theorem pass2_HH (M a b c : Int) (hM : 1 ≤ M) (ha : inHigh1 M a) (hb : inHigh1 M b) (hc : inHigh1 M c) :
+    (-(4 * M) < lift53High a b c) ∧ lift53High a b c < 4 * M := by
+  unfold inHigh1 at *; unfold lift53High; omega
+
+/-- 2^Kmax of every level-1 band is 4·2^(precision-1) -/
+theorem kmax_level1 (bd : Nat) (rct : Bool) (res band : Nat) (hbd : 1 ≤ bd) (hres : res ≤ 1) (hband : band ≤ 3) :
+    ((2 ^ (encBandNumbps 1 bd rct res band).toNat : Nat) : Int) = 4 * 2 ^ (bd + rct.toNat - 1) := by
+  rw [kmax_toNat 1 bd rct res band (by omega) hbd]
+  have hb : biboLog2 1 res band = 2 := by
+    have : ∀ r : Fin 2, ∀ b : Fin 4, biboLog2 1 r b = 2 := by decide
+    exact this ⟨res, by omega⟩ ⟨band, by omega⟩
+  rw [hb, Nat.pow_add]
+  simp [Int.natCast_pow, Int.mul_comm]
+
 /-! ## Sign-magnitude words -/
 
 theorem signmag_roundtrip' (kmax : Nat) (hk : kmax ≤ 31) (v : Int) (hv : v.natAbs < 2 ^ kmax) :
@@ -717,5 +796,334 @@ theorem tlmWalk_psots (parts : List (Nat × Nat)) (hfit : ∀ p ∈ parts, p.2 +
       cases ho with
       | head => omega
       | tail _ hm => have := h3 o hm; omega
+
+/-! ## U-VLC round trip -/
+
+/-- the five code shapes of `ojphUVLC`: class 0 = no code (u = 0), 1: `1`, 2: `01`, 3: `001`+1 suffix bit, 4: `000`+5 suffix bits -/
+def cPre : Nat → Nat | 1 => 1 | 2 => 2 | 3 => 4 | _ => 0
+def cP : Nat → Nat | 0 => 0 | 1 => 1 | 2 => 2 | _ => 3
+def cS : Nat → Nat | 3 => 1 | 4 => 5 | _ => 0
+def cBase : Nat → Nat | 0 => 0 | 1 => 1 | 2 => 2 | 3 => 3 | _ => 5
+def clsOf (u : Nat) : Nat := if u = 0 then 0 else if u = 1 then 1 else if u = 2 then 2 else if u ≤ 4 then 3 else 4
+
+theorem uvlcCode_form : ∀ u : Fin 33,
+    uvlcCode u = ((cPre (clsOf u), cP (clsOf u)), (u - cBase (clsOf u), cS (clsOf u))) ∧
+    cBase (clsOf u) ≤ u ∧ u - cBase (clsOf u) < 2 ^ cS (clsOf u) ∧ clsOf u < 5 ∧ (clsOf u = 0 ↔ u.val = 0) ∧
+    (clsOf u ≥ 3 ↔ u.val > 2) := by decide
+
+/-- unpacking a table entry -/
+theorem decode_of_entry (initial : Bool) (mode v lp ls u0suf p0 p1 : Nat)
+    (hlp : lp < 8) (hls : ls < 16) (hsuf : u0suf < 8) (hp0 : p0 < 8) (hp1 : p1 < 8)
+    (he : (if initial then uvlcTbl0 (mode + v % 64) else uvlcTbl1 (mode + v % 64)) = uvlcPack lp ls u0suf p0 p1) :
+    decodeUVLC initial mode v =
+      (p0 + v / 2 ^ lp % 2 ^ ls % 2 ^ u0suf, p1 + v / 2 ^ lp % 2 ^ ls / 2 ^ u0suf, lp + ls) := by
+  unfold decodeUVLC
+  simp only [he]
+  have e1 : uvlcPack lp ls u0suf p0 p1 % 8 = lp := by unfold uvlcPack; omega
+  have e2 : uvlcPack lp ls u0suf p0 p1 / 8 % 16 = ls := by unfold uvlcPack; omega
+  have e3 : uvlcPack lp ls u0suf p0 p1 / 128 % 8 = u0suf := by unfold uvlcPack; omega
+  have e4 : uvlcPack lp ls u0suf p0 p1 / 1024 % 8 = p0 := by unfold uvlcPack; omega
+  have e5 : uvlcPack lp ls u0suf p0 p1 / 8192 % 8 = p1 := by unfold uvlcPack; omega
+  rw [e1, e2, e3, e4, e5]
+
+/-- table facts: every 6-bit window that starts with the two prefixes carries the entry the shapes dictate -/
+def tblFactNonInitial : Bool :=
+  (List.range 5).all fun c0 => (List.range 5).all fun c1 => (List.range 64).all fun i =>
+    !(i % 2 ^ (cP c0 + cP c1) == cPre c0 + cPre c1 * 2 ^ cP c0) ||
+      uvlcTbl1 ((if c0 = 0 then 0 else 64) + (if c1 = 0 then 0 else 128) + i) ==
+        uvlcPack (cP c0 + cP c1) (cS c0 + cS c1) (cS c0) (cBase c0) (cBase c1)
+
+theorem tblFactNonInitial_ok : tblFactNonInitial = true := by decide +kernel
+
+theorem tbl1_entry (c0 c1 i : Nat) (hc0 : c0 < 5) (hc1 : c1 < 5) (hi : i < 64)
+    (hidx : i % 2 ^ (cP c0 + cP c1) = cPre c0 + cPre c1 * 2 ^ cP c0) :
+    uvlcTbl1 ((if c0 = 0 then 0 else 64) + (if c1 = 0 then 0 else 128) + i) =
+      uvlcPack (cP c0 + cP c1) (cS c0 + cS c1) (cS c0) (cBase c0) (cBase c1) := by
+  have h := tblFactNonInitial_ok
+  unfold tblFactNonInitial at h
+  rw [List.all_eq_true] at h
+  have h0 := h c0 (List.mem_range.mpr hc0)
+  rw [List.all_eq_true] at h0
+  have h1 := h0 c1 (List.mem_range.mpr hc1)
+  rw [List.all_eq_true] at h1
+  have h2 := h1 i (List.mem_range.mpr hi)
+  simp only [Bool.or_eq_true, Bool.not_eq_true', beq_eq_false_iff_ne, beq_iff_eq] at h2
+  rcases h2 with h2 | h2
+  · exact absurd hidx h2
+  · exact h2
+
+/-- window of a pair of code shapes with suffix values `s0`, `s1`, followed by arbitrary further bits `rest` -/
+def pairWindow (c0 c1 s0 s1 rest : Nat) : Nat :=
+  cPre c0 + cPre c1 * 2 ^ cP c0 + (s0 + s1 * 2 ^ cS c0) * 2 ^ (cP c0 + cP c1) +
+    rest * 2 ^ (cP c0 + cP c1 + cS c0 + cS c1)
+
+theorem nonInitial_core (c0 c1 s0 s1 rest : Nat) (hc0 : c0 < 5) (hc1 : c1 < 5)
+    (hs0 : s0 < 2 ^ cS c0) (hs1 : s1 < 2 ^ cS c1) :
+    decodeUVLC false ((if c0 = 0 then 0 else 64) + (if c1 = 0 then 0 else 128)) (pairWindow c0 c1 s0 s1 rest) =
+      (cBase c0 + s0, cBase c1 + s1, cP c0 + cP c1 + cS c0 + cS c1) := by
+  have hidx : pairWindow c0 c1 s0 s1 rest % 64 % 2 ^ (cP c0 + cP c1) = cPre c0 + cPre c1 * 2 ^ cP c0 := by
+    have h0 : c0 = 0 ∨ c0 = 1 ∨ c0 = 2 ∨ c0 = 3 ∨ c0 = 4 := by omega
+    have h1 : c1 = 0 ∨ c1 = 1 ∨ c1 = 2 ∨ c1 = 3 ∨ c1 = 4 := by omega
+    rcases h0 with rfl | rfl | rfl | rfl | rfl <;> rcases h1 with rfl | rfl | rfl | rfl | rfl <;>
+      simp [pairWindow, cPre, cP, cS] at hs0 hs1 ⊢ <;> omega
+  have he := tbl1_entry c0 c1 (pairWindow c0 c1 s0 s1 rest % 64) hc0 hc1 (Nat.mod_lt _ (by decide)) hidx
+  have hb : cP c0 + cP c1 < 8 ∧ cS c0 + cS c1 < 16 ∧ cS c0 < 8 ∧ cBase c0 < 8 ∧ cBase c1 < 8 := by
+    have h0 : c0 = 0 ∨ c0 = 1 ∨ c0 = 2 ∨ c0 = 3 ∨ c0 = 4 := by omega
+    have h1 : c1 = 0 ∨ c1 = 1 ∨ c1 = 2 ∨ c1 = 3 ∨ c1 = 4 := by omega
+    rcases h0 with rfl | rfl | rfl | rfl | rfl <;> rcases h1 with rfl | rfl | rfl | rfl | rfl <;> decide
+  rw [decode_of_entry false _ _ _ _ _ _ _ hb.1 hb.2.1 hb.2.2.1 hb.2.2.2.1 hb.2.2.2.2 (by simpa using he)]
+  have h0 : c0 = 0 ∨ c0 = 1 ∨ c0 = 2 ∨ c0 = 3 ∨ c0 = 4 := by omega
+  have h1 : c1 = 0 ∨ c1 = 1 ∨ c1 = 2 ∨ c1 = 3 ∨ c1 = 4 := by omega
+  rcases h0 with rfl | rfl | rfl | rfl | rfl <;> rcases h1 with rfl | rfl | rfl | rfl | rfl <;>
+    simp [pairWindow, cPre, cP, cS, cBase] at hs0 hs1 ⊢ <;> omega
+
+theorem code_of (u : Nat) (hu : u ≤ 32) : ∃ c s, c < 5 ∧ s < 2 ^ cS c ∧ u = cBase c + s ∧ (c = 0 ↔ u = 0) ∧
+    (c ≥ 3 ↔ u > 2) ∧ uvlcCode u = ((cPre c, cP c), (s, cS c)) := by
+  have h := uvlcCode_form ⟨u, by omega⟩
+  simp only at h
+  exact ⟨clsOf u, u - cBase (clsOf u), h.2.2.2.1, h.2.2.1, by omega, h.2.2.2.2.1, h.2.2.2.2.2, h.1⟩
+
+theorem concat_form (c0 c1 s0 s1 : Nat) (hc0 : c0 < 5) (hc1 : c1 < 5) (hs0 : s0 < 2 ^ cS c0) (hs1 : s1 < 2 ^ cS c1) :
+    vlcConcat [(cPre c0, cP c0), (cPre c1, cP c1), (s0, cS c0), (s1, cS c1)] =
+      (pairWindow c0 c1 s0 s1 0, cP c0 + cP c1 + cS c0 + cS c1) := by
+  have h0 : c0 = 0 ∨ c0 = 1 ∨ c0 = 2 ∨ c0 = 3 ∨ c0 = 4 := by omega
+  have h1 : c1 = 0 ∨ c1 = 1 ∨ c1 = 2 ∨ c1 = 3 ∨ c1 = 4 := by omega
+  rcases h0 with rfl | rfl | rfl | rfl | rfl <;> rcases h1 with rfl | rfl | rfl | rfl | rfl <;>
+    simp [vlcConcat, pairWindow, cPre, cP, cS] at hs0 hs1 ⊢ <;> omega
+
+theorem pairWindow_rest (c0 c1 s0 s1 rest : Nat) :
+    pairWindow c0 c1 s0 s1 0 + rest * 2 ^ (cP c0 + cP c1 + cS c0 + cS c1) = pairWindow c0 c1 s0 s1 rest := by
+  simp [pairWindow]
+
+theorem uvlc_noninitial_roundtrip' (u0 u1 rest : Nat) (h0 : u0 ≤ 32) (h1 : u1 ≤ 32) :
+    decodeUVLC false (uvlcMode false u0 u1)
+      ((encodeNonInitialUVLC u0 u1).1 + rest * 2 ^ (encodeNonInitialUVLC u0 u1).2) =
+      (u0, u1, (encodeNonInitialUVLC u0 u1).2) := by
+  obtain ⟨c0, s0, hc0, hs0, hu0, hz0, _, hcode0⟩ := code_of u0 h0
+  obtain ⟨c1, s1, hc1, hs1, hu1, hz1, _, hcode1⟩ := code_of u1 h1
+  have henc : encodeNonInitialUVLC u0 u1 = (pairWindow c0 c1 s0 s1 0, cP c0 + cP c1 + cS c0 + cS c1) := by
+    unfold encodeNonInitialUVLC
+    simp only [hcode0, hcode1]
+    exact concat_form c0 c1 s0 s1 hc0 hc1 hs0 hs1
+  have hmode : uvlcMode false u0 u1 = (if c0 = 0 then 0 else 64) + (if c1 = 0 then 0 else 128) := by
+    have e0 : (if u0 > 0 then 64 else 0) = (if c0 = 0 then 0 else 64) := by
+      by_cases a : c0 = 0
+      · have := hz0.mp a; simp [a, this]
+      · have hne : u0 ≠ 0 := fun h => a (hz0.mpr h)
+        have : u0 > 0 := by omega
+        simp [a, this]
+    have e1 : (if u1 > 0 then 128 else 0) = (if c1 = 0 then 0 else 128) := by
+      by_cases a : c1 = 0
+      · have := hz1.mp a; simp [a, this]
+      · have hne : u1 ≠ 0 := fun h => a (hz1.mpr h)
+        have : u1 > 0 := by omega
+        simp [a, this]
+    unfold uvlcMode
+    rw [e0, e1]; simp
+  rw [henc, hmode, pairWindow_rest, nonInitial_core c0 c1 s0 s1 rest hc0 hc1 hs0 hs1, hu0, hu1]
+
+/-! ### initial row -/
+
+def tblFactInitial : Bool :=
+  ((List.range 5).all fun c0 => (List.range 5).all fun c1 => (List.range 64).all fun i =>
+    !(i % 2 ^ (cP c0 + cP c1) == cPre c0 + cPre c1 * 2 ^ cP c0) ||
+      ((decide (c0 ≥ 3) && decide (c1 ≥ 1)) ||
+        uvlcTbl0 ((if c0 = 0 then 0 else 64) + (if c1 = 0 then 0 else 128) + i) ==
+          uvlcPack (cP c0 + cP c1) (cS c0 + cS c1) (cS c0) (cBase c0) (cBase c1)) &&
+      ((decide (c0 = 0) || decide (c1 = 0)) ||
+        uvlcTbl0 (256 + i) == uvlcPack (cP c0 + cP c1) (cS c0 + cS c1) (cS c0) (cBase c0 + 2) (cBase c1 + 2))) &&
+  ((List.range 5).all fun c0 => (List.range 2).all fun bit => (List.range 64).all fun i =>
+    !(decide (c0 ≥ 3) && i % 16 == cPre c0 + bit * 8) ||
+      uvlcTbl0 (192 + i) == uvlcPack 4 (cS c0) (cS c0) (cBase c0) (bit + 1))
+
+theorem tblFactInitial_ok : tblFactInitial = true := by decide +kernel
+
+theorem tbl0_entries (c0 c1 i : Nat) (hc0 : c0 < 5) (hc1 : c1 < 5) (hi : i < 64)
+    (hidx : i % 2 ^ (cP c0 + cP c1) = cPre c0 + cPre c1 * 2 ^ cP c0) :
+    (¬ (c0 ≥ 3 ∧ c1 ≥ 1) →
+      uvlcTbl0 ((if c0 = 0 then 0 else 64) + (if c1 = 0 then 0 else 128) + i) =
+        uvlcPack (cP c0 + cP c1) (cS c0 + cS c1) (cS c0) (cBase c0) (cBase c1)) ∧
+    (c0 ≠ 0 → c1 ≠ 0 →
+      uvlcTbl0 (256 + i) = uvlcPack (cP c0 + cP c1) (cS c0 + cS c1) (cS c0) (cBase c0 + 2) (cBase c1 + 2)) := by
+  have h := tblFactInitial_ok
+  unfold tblFactInitial at h
+  rw [Bool.and_eq_true] at h
+  have h := h.1
+  rw [List.all_eq_true] at h
+  have h0 := h c0 (List.mem_range.mpr hc0)
+  rw [List.all_eq_true] at h0
+  have h1 := h0 c1 (List.mem_range.mpr hc1)
+  rw [List.all_eq_true] at h1
+  have h2 := h1 i (List.mem_range.mpr hi)
+  simp only [Bool.or_eq_true, Bool.and_eq_true, Bool.not_eq_true', beq_eq_false_iff_ne, beq_iff_eq, decide_eq_true_eq] at h2
+  rcases h2 with h2 | ⟨ha, hb⟩
+  · exact absurd hidx h2
+  · constructor
+    · intro hn
+      rcases ha with ha | ha
+      · exact absurd ha hn
+      · exact ha
+    · intro n0 n1
+      rcases hb with hb | hb
+      · rcases hb with hb | hb
+        · exact absurd hb n0
+        · exact absurd hb n1
+      · exact hb
+
+theorem tbl0_special (c0 bit i : Nat) (hc0 : c0 < 5) (h3 : c0 ≥ 3) (hbit : bit < 2) (hi : i < 64)
+    (hidx : i % 16 = cPre c0 + bit * 8) :
+    uvlcTbl0 (192 + i) = uvlcPack 4 (cS c0) (cS c0) (cBase c0) (bit + 1) := by
+  have h := tblFactInitial_ok
+  unfold tblFactInitial at h
+  rw [Bool.and_eq_true] at h
+  have h := h.2
+  rw [List.all_eq_true] at h
+  have h0 := h c0 (List.mem_range.mpr hc0)
+  rw [List.all_eq_true] at h0
+  have h1 := h0 bit (List.mem_range.mpr hbit)
+  rw [List.all_eq_true] at h1
+  have h2 := h1 i (List.mem_range.mpr hi)
+  simp only [Bool.or_eq_true, Bool.not_eq_true', Bool.and_eq_false_iff, beq_iff_eq,
+    decide_eq_false_iff_not, beq_eq_false_iff_ne] at h2
+  rcases h2 with h2 | h2
+  · rcases h2 with h2 | h2
+    · exact absurd h3 h2
+    · exact absurd hidx h2
+  · exact h2
+
+theorem class_bounds (c0 c1 : Nat) (hc0 : c0 < 5) (hc1 : c1 < 5) :
+    cP c0 + cP c1 < 8 ∧ cS c0 + cS c1 < 16 ∧ cS c0 < 8 ∧ cBase c0 + 2 < 8 ∧ cBase c1 + 2 < 8 := by
+  have h0 : c0 = 0 ∨ c0 = 1 ∨ c0 = 2 ∨ c0 = 3 ∨ c0 = 4 := by omega
+  have h1 : c1 = 0 ∨ c1 = 1 ∨ c1 = 2 ∨ c1 = 3 ∨ c1 = 4 := by omega
+  rcases h0 with rfl | rfl | rfl | rfl | rfl <;> rcases h1 with rfl | rfl | rfl | rfl | rfl <;> decide
+
+theorem pairWindow_idx (c0 c1 s0 s1 rest : Nat) (hc0 : c0 < 5) (hc1 : c1 < 5)
+    (hs0 : s0 < 2 ^ cS c0) (hs1 : s1 < 2 ^ cS c1) :
+    pairWindow c0 c1 s0 s1 rest % 64 % 2 ^ (cP c0 + cP c1) = cPre c0 + cPre c1 * 2 ^ cP c0 := by
+  have h0 : c0 = 0 ∨ c0 = 1 ∨ c0 = 2 ∨ c0 = 3 ∨ c0 = 4 := by omega
+  have h1 : c1 = 0 ∨ c1 = 1 ∨ c1 = 2 ∨ c1 = 3 ∨ c1 = 4 := by omega
+  rcases h0 with rfl | rfl | rfl | rfl | rfl <;> rcases h1 with rfl | rfl | rfl | rfl | rfl <;>
+    simp [pairWindow, cPre, cP, cS] at hs0 hs1 ⊢ <;> omega
+
+/-- suffix extraction from a pair window, for any entry whose lengths are those of the two shapes -/
+theorem pairWindow_fields (c0 c1 s0 s1 rest p0 p1 : Nat) (hc0 : c0 < 5) (hc1 : c1 < 5)
+    (hs0 : s0 < 2 ^ cS c0) (hs1 : s1 < 2 ^ cS c1) :
+    (p0 + pairWindow c0 c1 s0 s1 rest / 2 ^ (cP c0 + cP c1) % 2 ^ (cS c0 + cS c1) % 2 ^ cS c0,
+      p1 + pairWindow c0 c1 s0 s1 rest / 2 ^ (cP c0 + cP c1) % 2 ^ (cS c0 + cS c1) / 2 ^ cS c0,
+      cP c0 + cP c1 + (cS c0 + cS c1)) = (p0 + s0, p1 + s1, cP c0 + cP c1 + cS c0 + cS c1) := by
+  have h0 : c0 = 0 ∨ c0 = 1 ∨ c0 = 2 ∨ c0 = 3 ∨ c0 = 4 := by omega
+  have h1 : c1 = 0 ∨ c1 = 1 ∨ c1 = 2 ∨ c1 = 3 ∨ c1 = 4 := by omega
+  rcases h0 with rfl | rfl | rfl | rfl | rfl <;> rcases h1 with rfl | rfl | rfl | rfl | rfl <;>
+    simp [pairWindow, cPre, cP, cS] at hs0 hs1 ⊢ <;> omega
+
+theorem initial_core_general (c0 c1 s0 s1 rest : Nat) (hc0 : c0 < 5) (hc1 : c1 < 5)
+    (hs0 : s0 < 2 ^ cS c0) (hs1 : s1 < 2 ^ cS c1) (hn : ¬ (c0 ≥ 3 ∧ c1 ≥ 1)) :
+    decodeUVLC true ((if c0 = 0 then 0 else 64) + (if c1 = 0 then 0 else 128)) (pairWindow c0 c1 s0 s1 rest) =
+      (cBase c0 + s0, cBase c1 + s1, cP c0 + cP c1 + cS c0 + cS c1) := by
+  have he := (tbl0_entries c0 c1 (pairWindow c0 c1 s0 s1 rest % 64) hc0 hc1 (Nat.mod_lt _ (by decide))
+    (pairWindow_idx c0 c1 s0 s1 rest hc0 hc1 hs0 hs1)).1 hn
+  have hb := class_bounds c0 c1 hc0 hc1
+  rw [decode_of_entry true _ _ (cP c0 + cP c1) (cS c0 + cS c1) (cS c0) (cBase c0) (cBase c1) hb.1 hb.2.1 hb.2.2.1
+    (by omega) (by omega) (by simpa using he)]
+  exact pairWindow_fields c0 c1 s0 s1 rest _ _ hc0 hc1 hs0 hs1
+
+theorem initial_core_mel (c0 c1 s0 s1 rest : Nat) (hc0 : c0 < 5) (hc1 : c1 < 5)
+    (hs0 : s0 < 2 ^ cS c0) (hs1 : s1 < 2 ^ cS c1) (n0 : c0 ≠ 0) (n1 : c1 ≠ 0) :
+    decodeUVLC true 256 (pairWindow c0 c1 s0 s1 rest) =
+      (cBase c0 + 2 + s0, cBase c1 + 2 + s1, cP c0 + cP c1 + cS c0 + cS c1) := by
+  have he := (tbl0_entries c0 c1 (pairWindow c0 c1 s0 s1 rest % 64) hc0 hc1 (Nat.mod_lt _ (by decide))
+    (pairWindow_idx c0 c1 s0 s1 rest hc0 hc1 hs0 hs1)).2 n0 n1
+  have hb := class_bounds c0 c1 hc0 hc1
+  rw [decode_of_entry true _ _ _ _ _ _ _ hb.1 hb.2.1 hb.2.2.1 hb.2.2.2.1 hb.2.2.2.2 (by simpa using he)]
+  exact pairWindow_fields c0 c1 s0 s1 rest _ _ hc0 hc1 hs0 hs1
+
+theorem initial_core_special (c0 s0 bit rest : Nat) (hc0 : c0 < 5) (h3 : c0 ≥ 3) (hs0 : s0 < 2 ^ cS c0) (hbit : bit < 2) :
+    decodeUVLC true 192 (cPre c0 + bit * 8 + s0 * 16 + rest * 2 ^ (4 + cS c0)) =
+      (cBase c0 + s0, bit + 1, 4 + cS c0) := by
+  have h0 : c0 = 3 ∨ c0 = 4 := by omega
+  have hidx : (cPre c0 + bit * 8 + s0 * 16 + rest * 2 ^ (4 + cS c0)) % 64 % 16 = cPre c0 + bit * 8 := by
+    rcases h0 with rfl | rfl <;> simp [cPre, cS] at hs0 ⊢ <;> omega
+  have he := tbl0_special c0 bit _ hc0 h3 hbit (Nat.mod_lt _ (by decide)) hidx
+  have hb : cS c0 < 16 ∧ cS c0 < 8 ∧ cBase c0 < 8 ∧ bit + 1 < 8 := by
+    rcases h0 with rfl | rfl <;> simp [cS, cBase] <;> omega
+  rw [decode_of_entry true _ _ 4 (cS c0) (cS c0) (cBase c0) (bit + 1) (by decide) hb.1 hb.2.1 hb.2.2.1 hb.2.2.2
+    (by simpa using he)]
+  rcases h0 with rfl | rfl <;> simp [cPre, cS, cBase] at hs0 ⊢ <;> omega
+
+theorem mode_flags (u0 u1 c0 c1 : Nat) (hz0 : c0 = 0 ↔ u0 = 0) (hz1 : c1 = 0 ↔ u1 = 0) :
+    (if u0 > 0 then 64 else 0) + (if u1 > 0 then 128 else 0) = (if c0 = 0 then 0 else 64) + (if c1 = 0 then 0 else 128) := by
+  have e0 : (if u0 > 0 then 64 else 0) = (if c0 = 0 then 0 else 64) := by
+    by_cases a : c0 = 0
+    · have := hz0.mp a; simp [a, this]
+    · have hne : u0 ≠ 0 := fun h => a (hz0.mpr h)
+      have : u0 > 0 := by omega
+      simp [a, this]
+  have e1 : (if u1 > 0 then 128 else 0) = (if c1 = 0 then 0 else 128) := by
+    by_cases a : c1 = 0
+    · have := hz1.mp a; simp [a, this]
+    · have hne : u1 ≠ 0 := fun h => a (hz1.mpr h)
+      have : u1 > 0 := by omega
+      simp [a, this]
+  rw [e0, e1]
+
+theorem concat_special (c0 s0 bit : Nat) (hc0 : c0 < 5) (h3 : c0 ≥ 3) (hs0 : s0 < 2 ^ cS c0) (hbit : bit < 2) :
+    vlcConcat [(cPre c0, cP c0), (bit, 1), (s0, cS c0)] = (cPre c0 + bit * 8 + s0 * 16, 4 + cS c0) := by
+  have h0 : c0 = 3 ∨ c0 = 4 := by omega
+  rcases h0 with rfl | rfl <;> simp [vlcConcat, cPre, cP, cS] at hs0 ⊢ <;> omega
+
+theorem uvlc_initial_roundtrip' (u0 u1 rest : Nat) (h0 : u0 ≤ 32) (h1 : u1 ≤ 32) :
+    decodeUVLC true (uvlcMode true u0 u1)
+      ((encodeInitialUVLC u0 u1).1 + rest * 2 ^ (encodeInitialUVLC u0 u1).2) =
+      (u0, u1, (encodeInitialUVLC u0 u1).2) := by
+  by_cases hboth : u0 > 2 ∧ u1 > 2
+  · -- both above 2: MEL event 1, codes of u-2
+    obtain ⟨c0, s0, hc0, hs0, hu0, hz0, _, hcode0⟩ := code_of (u0 - 2) (by omega)
+    obtain ⟨c1, s1, hc1, hs1, hu1, hz1, _, hcode1⟩ := code_of (u1 - 2) (by omega)
+    have henc : encodeInitialUVLC u0 u1 = (pairWindow c0 c1 s0 s1 0, cP c0 + cP c1 + cS c0 + cS c1) := by
+      unfold encodeInitialUVLC
+      simp only [hboth, and_self, if_true, hcode0, hcode1]
+      exact concat_form c0 c1 s0 s1 hc0 hc1 hs0 hs1
+    have hmode : uvlcMode true u0 u1 = 256 := by
+      unfold uvlcMode
+      have a : u0 > 0 := by omega
+      have b : u1 > 0 := by omega
+      simp [a, b, hboth]
+    have n0 : c0 ≠ 0 := fun h => by have := hz0.mp h; omega
+    have n1 : c1 ≠ 0 := fun h => by have := hz1.mp h; omega
+    rw [henc, hmode, pairWindow_rest, initial_core_mel c0 c1 s0 s1 rest hc0 hc1 hs0 hs1 n0 n1]
+    simp only [Prod.mk.injEq, and_true]; omega
+  · by_cases hspec : u0 > 2 ∧ u1 > 0
+    · -- u0 > 2, u1 ∈ {1,2}: one bit for u1 between prefix and suffix of u0
+      obtain ⟨c0, s0, hc0, hs0, hu0, _, h30, hcode0⟩ := code_of u0 h0
+      have h3 : c0 ≥ 3 := h30.mpr hspec.1
+      have hbit : u1 - 1 < 2 := by omega
+      have henc : encodeInitialUVLC u0 u1 = (cPre c0 + (u1 - 1) * 8 + s0 * 16, 4 + cS c0) := by
+        have hu12 : ¬ u1 > 2 := fun h => hboth ⟨hspec.1, h⟩
+        unfold encodeInitialUVLC
+        simp only [hspec, hu12, and_false, and_self, if_false, if_true, hcode0]
+        exact concat_special c0 s0 (u1 - 1) hc0 h3 hs0 hbit
+      have hmode : uvlcMode true u0 u1 = 192 := by
+        unfold uvlcMode
+        have a : u0 > 0 := by omega
+        simp [a, hspec.2, hboth]
+      rw [henc, hmode, initial_core_special c0 s0 (u1 - 1) rest hc0 h3 hs0 hbit]
+      simp only [Prod.mk.injEq, and_true]; omega
+    · -- general: prefixes then suffixes
+      obtain ⟨c0, s0, hc0, hs0, hu0, hz0, h30, hcode0⟩ := code_of u0 h0
+      obtain ⟨c1, s1, hc1, hs1, hu1, hz1, _, hcode1⟩ := code_of u1 h1
+      have henc : encodeInitialUVLC u0 u1 = (pairWindow c0 c1 s0 s1 0, cP c0 + cP c1 + cS c0 + cS c1) := by
+        unfold encodeInitialUVLC
+        simp only [hboth, if_false, hspec, hcode0, hcode1]
+        exact concat_form c0 c1 s0 s1 hc0 hc1 hs0 hs1
+      have hmode : uvlcMode true u0 u1 = (if c0 = 0 then 0 else 64) + (if c1 = 0 then 0 else 128) := by
+        unfold uvlcMode
+        rw [mode_flags u0 u1 c0 c1 hz0 hz1]
+        simp [hboth]
+      have hn : ¬ (c0 ≥ 3 ∧ c1 ≥ 1) := by
+        intro ⟨a, b⟩
+        have : u0 > 2 := h30.mp a
+        have : u1 ≠ 0 := fun h => by have := hz1.mpr h; omega
+        exact hspec ⟨by omega, by omega⟩
+      rw [henc, hmode, pairWindow_rest, initial_core_general c0 c1 s0 s1 rest hc0 hc1 hs0 hs1 hn, hu0, hu1]
 
 end Htj2k
